@@ -83,6 +83,26 @@ def extract(repo: Path) -> tuple[str, list[str]]:
                 if isinstance(m, ast.FunctionDef) and m.name == "optimize": fn = m
     if fn is None:
         return "[SUnknown]", ["optimize() not found"]
+    # the names of the local variables carry no meaning: they are renamed to the model's names in order of first binding, so that a pure renaming of a local
+    # (evolution -> history, has_to_stop -> done ...) still yields the same schema
+    canon = ["evolution", "error", "fitness", "has_to_stop"]
+    locs = []
+    for n in ast.walk(fn):
+        targets = []
+        if isinstance(n, (ast.Assign,)): targets = n.targets
+        elif isinstance(n, (ast.AnnAssign, ast.AugAssign)): targets = [n.target]
+        for t in targets:
+            for tt in (t.elts if isinstance(t, (ast.Tuple, ast.List)) else [t]):
+                if isinstance(tt, ast.Name) and tt.id not in locs: locs.append(tt.id)
+    # ast.walk is breadth-first: order the locals by source position of their first binding instead
+    first = {}
+    for n in ast.walk(fn):
+        if isinstance(n, ast.Name) and isinstance(n.ctx, ast.Store) and n.id in locs: first.setdefault(n.id, (n.lineno, n.col_offset))
+    locs = sorted(first, key=first.get)
+    if len(locs) == len(canon) and locs != canon and not (set(locs) & {a.arg for a in fn.args.args}):
+        ren = dict(zip(locs, canon))
+        for n in ast.walk(fn):
+            if isinstance(n, ast.Name) and n.id in ren: n.id = ren[n.id]
     params = [a.arg for a in fn.args.args]
     unknown = []
     toks = []
